@@ -391,7 +391,7 @@ def check_source(trace, stats=None, cuts=None, corruptions=None):
         m = next((i for i, e in enumerate(E) if e is not None and line < e), None)
         if m is None:
             return vs  # trailing material after the last frame
-        if exc is None and len(Y) == N and m < len(rec["frames"]) and modname in ("xyz", "pdb", "sdf", "mol2", "gromacs"):
+        if m < N and modname in ("xyz", "pdb", "sdf", "mol2", "gromacs"):
             # (formats with typed, positional numeric fields; extended XYZ key=value data are typed dynamically)
             # Was the field ignored by the parser, or is it a number the parser reads?  Replace it by another valid
             # number: if the frame's numeric content follows, the field is parsed as a number and garbage in it is a
@@ -400,31 +400,33 @@ def check_source(trace, stats=None, cuts=None, corruptions=None):
             toks = list(faults.NUM_RE.finditer(ls_[line])) if line < len(ls_) else []
             if toks:
                 tk = toks[min(f["tok"], len(toks) - 1)]
+                orig = ls_[line][tk.start():tk.end()].decode("latin-1")
                 new_tok = perturbed_token(ls_[line][tk.start():tk.end()].decode("ascii", "replace"))
                 if new_tok is not None:
-                    pdata = faults.apply(data0, {**f, "token": new_tok, "keep_width": True})
-                    prec = c07.run_load(name, fmt, "load_many", pdata, ("exhaust", 0), None, budget)
-                    n_eval += 1
                     # the garbage must sit exactly where the number sat (fixed-column formats), and a tolerated field
                     # that is announced by a LoadWarning (e.g. an unknown MOL2 bond type) is fine
                     width = tk.end() - tk.start()
-                    exact = {**f, "token": ("x" + "#" * (width - 1)), "keep_width": True}
-                    grec = c07.run_load(name, fmt, "load_many", faults.apply(data0, exact), ("exhaust", 0), None, budget)
-                    n_eval += 1
-                    tolerated = grec["exc"] is None and len(grec["frames"]) == N and "LoadWarning" not in grec["warnings"]
-                    if not tolerated and width >= 3:
+                    cands = [{**f, "token": ("x" + "#" * (width - 1)), "keep_width": True}]
+                    if width >= 3:
                         # second kind of garbage: the number with one inner character replaced by a byte that is not
                         # valid UTF-8 (bit rot); a reader that drops undecodable bytes would silently read another number
-                        orig = ls_[line][tk.start():tk.end()].decode("latin-1")
-                        exact = {**f, "token": orig[:1] + "\xff" + orig[2:], "keep_width": True, "latin1": True}
+                        cands.append({**f, "token": orig[:1] + "\xff" + orig[2:], "keep_width": True, "latin1": True})
+                    tolerated = None
+                    for exact in cands:
                         grec = c07.run_load(name, fmt, "load_many", faults.apply(data0, exact), ("exhaust", 0), None, budget)
                         n_eval += 1
-                        tolerated = grec["exc"] is None and len(grec["frames"]) == N and "LoadWarning" not in grec["warnings"]
-                    if tolerated and prec["exc"] is None and len(prec["frames"]) == N and numeric_fields_differ(prec["frames"][m], base["frames"][m]):
-                        if stats is not None:
-                            stats.inc("probe.numeric_field_sensitivity_established")
-                        vs.append(_v("garbage_in_numeric_field_tolerated", f"frame {m}, line {line + 1}: the field is parsed as a number "
-                                     f"(changing it to {new_tok} changes the frame's numbers) but garbage of the same width in its place was accepted without LoadError or LoadWarning", {**trace, "fault": exact}, "field"))
+                        if grec["exc"] is None and len(grec["frames"]) == N and "LoadWarning" not in grec["warnings"]:
+                            tolerated = exact
+                            break
+                    if tolerated is not None:
+                        pdata = faults.apply(data0, {**f, "token": new_tok, "keep_width": True})
+                        prec = c07.run_load(name, fmt, "load_many", pdata, ("exhaust", 0), None, budget)
+                        n_eval += 1
+                        if prec["exc"] is None and len(prec["frames"]) == N and numeric_fields_differ(prec["frames"][m], base["frames"][m]):
+                            if stats is not None:
+                                stats.inc("probe.numeric_field_sensitivity_established")
+                            vs.append(_v("garbage_in_numeric_field_tolerated", f"frame {m}, line {line + 1}: the field is parsed as a number "
+                                         f"(changing it to {new_tok} changes the frame's numbers) but garbage of the same width in its place ({tolerated['token']!r}) was accepted without LoadError or LoadWarning", {**trace, "fault": tolerated}, "field"))
         if exc is None:
             if len(Y) < N:
                 vs.append(_v("silent_end", f"garbage token in frame {m} (line {line + 1}): sequence ended silently after {len(Y)} of {N} frames", tr, "field"))
